@@ -31,6 +31,12 @@ def evOf? : Term → Option Ev
   | .list [.atom "ins", p, f, n] => do pure (.ins (← peerOf? p) (← famOf? f) (← pfxOf? n))
   | .list [.atom "rm", p, f, n] => do pure (.rm (← peerOf? p) (← famOf? f) (← pfxOf? n))
   | .list [.atom "drop", p, f] => do pure (.drop (← peerOf? p) (← famOf? f))
+  | .list [.atom "stale", p, f] => do pure (.stale (← peerOf? p) (← famOf? f))
+  | .list [.atom "llgr", p, f] => do pure (.llgr (← peerOf? p) (← famOf? f))
+  | .list [.atom "purge", p, f] => do pure (.purge (← peerOf? p) (← famOf? f))
+  | .list [.atom "lpurge", p, f] => do pure (.lpurge (← peerOf? p) (← famOf? f))
+  | .list [.atom "nhv", p, b] => do pure (.nhv (← peerOf? p) (← asBool? b))
+  | .list [.atom "gdown", p] => do pure (.gdown (← peerOf? p))
   | _ => none
 
 def evT : Ev → Term
@@ -41,6 +47,12 @@ def evT : Ev → Term
   | .ins p f n => tag "ins" [nat p, nat f, nat n]
   | .rm p f n => tag "rm" [nat p, nat f, nat n]
   | .drop p f => tag "drop" [nat p, nat f]
+  | .stale p f => tag "stale" [nat p, nat f]
+  | .llgr p f => tag "llgr" [nat p, nat f]
+  | .purge p f => tag "purge" [nat p, nat f]
+  | .lpurge p f => tag "lpurge" [nat p, nat f]
+  | .nhv p b => tag "nhv" [nat p, bool b]
+  | .gdown p => tag "gdown" [nat p]
 
 def caseT (cfg : Cfg) (evs : List Ev) : Term :=
   list [sym "case", tag "peers" (cfg.peers.map fun e => list [nat e.1, ofList nat e.2]),
